@@ -9,7 +9,8 @@ use duckscript::types::runtime::Context;
 use serde_json::json;
 use std::collections::{BTreeSet, HashMap};
 
-const NAMES: &[&str] = &["a", "ab", "abc", "s::x", "s::y", "z"];
+// "ba" and "xs::q" hold the prefixes "a" / "s::" in the middle: prefix clearing must not touch them
+const NAMES: &[&str] = &["a", "ab", "abc", "s::x", "s::y", "z", "ba", "xs::q"];
 
 #[derive(Clone, Debug)]
 enum Op {
@@ -287,7 +288,7 @@ fn case_t(t: &mut Tape, st: &mut Stats) -> Verdict {
 pub fn property() -> Property {
     Property {
         id: "C11",
-        rule: "histories of 1..40 (thorough ..120) operations (set, unset, set_by_name with/without value, get_by_name, is_defined, get_all_var_names, unset_all_vars with/without --prefix, clear_scope, scope_push_stack and scope_pop_stack with/without --copy lists naming defined, undefined and repeated names, pops on an empty stack) over 6 names (prefix-sharing, '::' names) and hazard values, each executed as one run_instruction on a persistent SDK context; after EVERY step the command result and the whole variable map are compared with HashMap + Vec<HashMap>. Non-trivial: push depth >= 2 with a --copy, or a failed pop followed by more operations; distinct by history",
+        rule: "histories of 1..40 (thorough ..120) operations (set, unset, set_by_name with/without value, get_by_name, is_defined, get_all_var_names, unset_all_vars with/without --prefix, clear_scope, scope_push_stack and scope_pop_stack with/without --copy lists naming defined, undefined and repeated names, pops on an empty stack) over 8 names (prefix-sharing, '::' names, names holding another name's prefix in the middle) and hazard values, each executed as one run_instruction on a persistent SDK context; after EVERY step the command result and the whole variable map are compared with HashMap + Vec<HashMap>. Non-trivial: push depth >= 2 with a --copy, or a failed pop followed by more operations; distinct by history",
         assumptions: &[
             "values are free of '$', '%' and backslash (binding of such values is C02's subject)",
             "for a name undefined when copied on pop only the absence of a failure and the rest of the map are compared (the model adopts the observed value of that name)",
